@@ -397,6 +397,13 @@ RTRLIB_EXPORT int pfx_table_validate_r(struct pfx_table *pfx_table, struct pfx_r
 	}
 
 	while (!pfx_table_elem_matches(node->data, asn, prefix_len)) {
+		// the node sits at the maximum depth, there is no further address bit to descend by
+		if (lvl >= (prefix->ver == LRTR_IPV4 ? 32u : 128u)) {
+			pthread_rwlock_unlock(&pfx_table->lock);
+			*result = BGP_PFXV_STATE_INVALID;
+			return PFX_SUCCESS;
+		}
+
 		if (lrtr_ip_addr_is_zero(lrtr_ip_addr_get_bits(
 			    prefix, lvl++,
 			    1))) //post-incr lvl, trie_lookup is performed on child_nodes => parent lvl + 1
